@@ -474,6 +474,11 @@ func runPipeline(c *ctx, which string) {
 			c.r.Sample(map[string]any{"scenario": sc.Name, "trace": trunc(joinTrace(run.trace), 400)})
 		}
 	}
+	if which == "C05" || which == "C08" {
+		for i := 0; i < 3; i++ {
+			ingestRacesStop(c, i)
+		}
+	}
 	n := 60 * c.scale
 	for i := 0; i < n; i++ {
 		sc := genPlScenario(r, which)
@@ -657,4 +662,72 @@ func (o *ackObserver) violations() []ackViolation {
 	o.mu.Lock()
 	defer o.mu.Unlock()
 	return append([]ackViolation(nil), o.viol...)
+}
+
+// windowCtx parks its caller the first time Done() is evaluated - for IngestRows that is on entry to the
+// enqueue select, i.e. after the stopped check - until released or until a bound expires.
+type windowCtx struct {
+	once     sync.Once
+	inWindow chan struct{}
+	proceed  chan struct{}
+	bound    time.Duration
+}
+
+func (w *windowCtx) Deadline() (time.Time, bool) { return time.Time{}, false }
+func (w *windowCtx) Err() error                  { return nil }
+func (w *windowCtx) Value(any) any               { return nil }
+func (w *windowCtx) Done() <-chan struct{} {
+	w.once.Do(func() {
+		close(w.inWindow)
+		select {
+		case <-w.proceed:
+		case <-time.After(w.bound):
+		}
+	})
+	return nil
+}
+
+// ingestRacesStop: an IngestRows caller sits between its stopped check and its enqueue while Stop runs.
+// Whatever the engine does (make Stop wait, or refuse the batch), a batch IngestRows accepted must be
+// answered once Stop has returned nil.
+func ingestRacesStop(c *ctx, i int) {
+	cfg := bs.DefaultBloomSearchEngineConfig()
+	cfg.IngestBufferSize = 4
+	cfg.MaxBufferedTime = time.Hour
+	store := NewMemStore()
+	eng, err := bs.NewBloomSearchEngine(cfg, &FaultMeta{MetaStore: bs.NewMemoryMetaStore(), s: store}, store)
+	if err != nil {
+		fatal("engine: %v", err)
+	}
+	eng.Start()
+	w := &windowCtx{inWindow: make(chan struct{}), proceed: make(chan struct{}), bound: time.Duration(150+100*i) * time.Millisecond}
+	done := make(chan error, 1)
+	ret := make(chan error, 1)
+	go func() { ret <- eng.IngestRows(w, []map[string]any{{"_id": 1}}, done) }()
+	select {
+	case <-w.inWindow:
+	case <-time.After(2 * time.Second):
+		c.r.Note("ingest-races-stop: IngestRows never evaluated ctx.Done(); scenario not applicable")
+		eng.Stop(context.Background())
+		return
+	}
+	sctx, cancel := context.WithTimeout(context.Background(), 10*time.Second)
+	stopErr := eng.Stop(sctx)
+	cancel()
+	close(w.proceed)
+	ingestErr := <-ret
+	var ack error
+	answered := false
+	select {
+	case ack = <-done:
+		answered = true
+	case <-time.After(500 * time.Millisecond):
+	}
+	c.r.Case(true, fmt.Sprint("ingest-races-stop", i))
+	c.r.Hit("pipeline.ingest-races-stop")
+	if stopErr == nil && ingestErr == nil && !answered {
+		c.r.Add(Finding{Kind: "violation", Check: "unanswered-after-graceful-stop", Detail: "IngestRows returned nil for a batch submitted while Stop was running, Stop returned nil, and the batch's done channel was never answered: the accepted batch was dropped",
+			Replay: map[string]any{"scenario": "ingest-races-stop", "window_bound_ms": w.bound.Milliseconds(), "ingest_err": fmt.Sprint(ingestErr), "stop_err": fmt.Sprint(stopErr)}})
+	}
+	_ = ack
 }
